@@ -20,10 +20,10 @@ ASSUME = [
 ]
 
 
-def run_driver(ctx, binp, scripts, name, race=False):
+def run_driver(ctx, binp, scripts, name, race=False, test="TestVerifTW"):
     inp, outp = ctx.path("run", name + ".json"), ctx.path("run", name + ".ndjson")
     json.dump(dict(scripts=scripts), open(inp, "w"))
-    r = subprocess.run([binp, "-test.run", "^TestVerifTW$"], env=dict(os.environ, VERIF_SCRIPT=inp, VERIF_OUT=outp),
+    r = subprocess.run([binp, "-test.run", "^%s$" % test], env=dict(os.environ, VERIF_SCRIPT=inp, VERIF_OUT=outp),
                        capture_output=True, text=True, timeout=1800)
     out = r.stdout + r.stderr
     races = out.count("WARNING: DATA RACE")
@@ -83,6 +83,12 @@ def run(ctx):
                             stall_ms=rng.choice([0, 0, 1, 5]), stall_every=rng.choice([1, 7, 50])))
     binp = ctx.go_test_build("./cmd/thermal-writer", "tw.test")
     events = run_driver(ctx, binp, scripts, "tw")
+    # ---- the camera reconnects while the previous connection's writer is still draining its backlog (main()'s accept
+    # loop serves the next connection as soon as handleConn returns at EOF): connections must stay independent
+    rscripts = [dict(framesize=rng.choice([64, 1000, 5000]), n1=rng.choice([50, 70]), n2=rng.choice([5, 30]), stall_ms=rng.choice([30, 40]),
+                     gap_ms=rng.choice([1100, 1300])) for _ in range(2 if tier == "quick" else 12)]
+    recev = run_driver(ctx, binp, rscripts, "twreconn", test="TestVerifTWReconnect")
+    events += recev
     # ---- the same free-running scripts under the race detector
     race_note = None
     try:
@@ -117,7 +123,7 @@ def run(ctx):
     coverage = dict(states=d.get("distinct", 0), transitions=d.get("generated", 0),
                     traces_validated_against_impl=len(events), samples=[dict(script=scripts[0], result={k: events[0][k] for k in events[0] if k != "files"})],
                     exhaustive=True, design=consts, graph_edges=ne, gated_schedules=ngated, infeasible_schedules=infeasible,
-                    free_runs=nfree, race_runs=sum(1 for e in events if e["mode"].startswith("race-")),
+                    free_runs=nfree, reconnect_runs=len(rscripts), reconnect_frames_written_while_both_writers_alive=sum(e.get("backlog", 0) for e in recev), race_runs=sum(1 for e in events if e["mode"].startswith("race-")),
                     frames_checked=sum(len(f["ids"]) for e in events for f in e["files"]),
                     max_backlog=max([e.get("backlog", 0) for e in events] + [0]),
                     evaluations=len(events), distinct_nontrivial=len({json.dumps(s, sort_keys=True) for s in scripts}),
